@@ -91,6 +91,7 @@ struct GenOpts {
   bool huge_strings = false;   // occasionally 4..70 KB strings (crosses pages, SimMem size classes, default chunk size)
   bool nonfinite = false;
   int key_alphabet = 6;        // small alphabet => hits and duplicates
+  int family_len = 0;          // >0: all "family" keys of this run have this length (differ only in one middle byte)
 };
 JVal gen_value(sim::Rng& r, const GenOpts& o, int depth = 0);
 std::string gen_key(sim::Rng& r, const GenOpts& o);
